@@ -384,7 +384,8 @@ def gen_truth(rng: random.Random, gs: dict, cls: str, modes: int, resolvable: bo
     return ds
 
 
-def gen_candidate(rng: random.Random, gs: dict, truth: dict, cls: str, modes: int, across: bool = True) -> dict:
+def gen_candidate(rng: random.Random, gs: dict, truth: dict, cls: str, modes: int, across: bool = True,
+                  off_locus: bool = True) -> dict:
     """the truth moved by up to a cell, radius / width off by up to 20 %, possibly written with a position outside the
     box on periodic axes; classes without width / with unset width exercise promotion and the default width"""
     hs = spacing(gs)
@@ -401,6 +402,10 @@ def gen_candidate(rng: random.Random, gs: dict, truth: dict, cls: str, modes: in
         pos[2] += rng.uniform(-1, 1) * hs[1]
         if per and across and rng.random() < 0.3:
             pos[2] += rng.choice([-1, 1]) * (hi - lo)
+    # candidates away from the symmetry locus of symmetric grids (the constrained coordinates must come back untouched)
+    if fam != "cartesian" and cls != "PerturbedDroplet3DAxisSym" and off_locus and rng.random() < 0.4:
+        for i in grid_constraints(gs):
+            pos[i] = rng.choice([-1, 1]) * rng.uniform(0.05, 0.8) * hs[0]
     radius = max(truth["radius"] * rng.uniform(0.8, 1.2), 0.5 * max(hs))
     ds = {"cls": cls, "position": pos, "radius": radius}
     if cls != "SphericalDroplet":
@@ -548,7 +553,7 @@ def known_entry(prop: str, failure: str, **attrs):
             if key in ("call", "failure"):
                 continue
             want = want if isinstance(want, list) else [want]
-            if key in attrs and attrs[key] not in want:
+            if attrs.get(key) not in want:
                 ok = False
         if ok:
             return e
@@ -644,8 +649,12 @@ def c04_oracle(case: dict, rec: dict) -> list[dict]:
         vmin1, vrng1 = (float(v) for v in rec["calls"][0]["x"][-2:])
     else:
         vmin1, vrng1 = vmin0, vrng0
-    dev0 = deviation(prom, grid, region, image, vmin0, vrng0)
-    dev1 = deviation(out, grid, region, image, vmin1, vrng1)
+    try:
+        dev0 = deviation(prom, grid, region, image, vmin0, vrng0)
+        dev1 = deviation(out, grid, region, image, vmin1, vrng1)
+    except Exception as e:  # e.g. a returned droplet that its own class rejects
+        fail("invalid result", f"the returned droplet {out} cannot be rendered: {type(e).__name__}: {e}")
+        return fails
     rec["dev0"], rec["dev1"] = dev0, dev1
     if not dev1 <= dev0 * (1 + COST_RTOL) + 1e-300:
         fail("cost increased", f"squared deviation over the fitted region grew from {dev0!r} to {dev1!r}")
@@ -679,7 +688,9 @@ def prove_with_fallback(ctx, deps: list[str], gens: list[str]) -> tuple[bool, bo
     """-> (proofs hold, over the freshly generated text?).  When the fresh Gen_refine / Gen_refine_R / Gen_shapes
     text is missing (translator failed closed) or no longer supports the proofs, the theorems are re-checked over
     the golden model; the tie to the code is then the correspondence run (which must agree)."""
+    import gen  # noqa: F401  (first: it loads the plug-ins, among them gen_refine, into its generator table)
     import gen_refine
+    assert "Gen_refine" in gen.GENERATORS and "Gen_refine_R" in gen.GENERATORS
     nb, ob, dc = len(ctx.broken), ctx.obligations, ctx.discharged
     ok = vlib.prove(ctx, deps, gens=gens)
     if ok:
@@ -702,3 +713,44 @@ def prove_with_fallback(ctx, deps: list[str], gens: list[str]) -> tuple[bool, bo
     ctx.tie.append("tie: correspondence (translator fell back to the golden model)")
     ctx.extra["translator_fell_back"] = True
     return ok2, False
+
+
+def grid_name(gs: dict) -> str:
+    if gs["family"] == "cartesian":
+        return f"CartesianGrid({len(gs['shape'])}d)"
+    if gs["family"] == "cylindrical":
+        return f"CylindricalSymGrid(periodic_z={bool(gs['periodic_z'])})"
+    return {"polar": "PolarSymGrid", "spherical": "SphericalSymGrid"}[gs["family"]]
+
+
+def finding_conditions(case: dict, rec: dict) -> list:
+    """the conditions (as worded in known_findings.json) that hold for this run"""
+    conds = []
+    gs = case["grid"]
+    auto = case["vmin"] is None or case["vmax"] is None
+    empty = rec.get("region") is not None and not rec["region"].any()
+    if case["adjust"] and rec.get("dmin") is not None:
+        vmin, vmax = effective_levels(case, rec)
+        if vmin >= vmax:
+            conds.append("adjust_values and vmin_eff >= vmax_eff")
+    if gs["family"] == "cylindrical" and gs["periodic_z"]:
+        z0, z1 = gs["bounds_z"]
+        if not (z0 <= case["candidate"]["position"][2] < z1):
+            conds.append("candidate outside [z0,z1)")
+        call = rec["calls"][0] if rec.get("calls") else None
+        if call is not None and "x" in call and not (z0 <= float(call["x"][0]) < z1):
+            conds.append("fitted centre outside [z0,z1)")   # x[0]: the only free coordinate on a cylinder is z
+    if empty and auto:
+        conds.append("fit region empty and vmin or vmax None")
+    if auto and not case["adjust"]:
+        conds.append("vmin or vmax None and adjust_values False")
+    return conds
+
+
+def match_known(prop: str, case: dict, rec: dict, failure: str):
+    attrs = {"grid": grid_name(case["grid"]), "class": case["candidate"]["cls"]}
+    for cond in finding_conditions(case, rec) + [None]:
+        e = known_entry(prop, failure, condition=cond, **attrs)
+        if e is not None:
+            return e
+    return None
